@@ -68,6 +68,10 @@ CHECKS = {
             'symbolic values and time stamps vs. a symbolic now) one receive-loop iteration at a time: cache == import of the last message, time stamp '
             'never in the future, callbacks once per message per level, registration reports the cached state; end-to-end composition without sockets '
             'with symbolic values through client export -> real dispatcher -> fake driver -> node export -> client import', '5/C12'),
+    'C07': ('model_checking', 'the real TCPRequestHandler over a fake socket with real JSON: a probe line chosen by a symbolic selector from a catalogue of '
+            'valid and byte-level mutated request lines between two valid requests, stream cut positions chosen by symbolic selectors; oracle: output '
+            'independent of segmentation, one well-formed strict-JSON UTF-8 reply line per request in order, reply action/specifier belong to the '
+            'request, neighbours unaffected, other connections untouched; codec inverse on a catalogue. Symbolic strings: CrossHair part', '5/C07'),
 }
 NOT_YET = 'check not built yet in this round (planned per DESIGN.md section 5); not claimed until its harness runs clean'
 NOT_APPLICABLE = {}
